@@ -3,13 +3,38 @@
 CONF = dict(
     cmd='c14',
     props='Props/C14.v',
-    rule='TODO',
-    assumptions=[],
-    trusted=[],
-    technique='TODO',
-    level_text='TODO',
-    level_note='TODO',
-    explanation='',
-    timeout_quick=600,
+    rule=('NTP: every value of each 8-bit field and (thorough: every, quick: ~2000 per field) value of each 16-bit field with the other fields fixed, all 256 first bytes '
+ 'through the decoder, boundary-dense/random packets (0, max, 2^k+-1, single non-zero byte, all-bytes-distinct), byte strings of 0..148 bytes, all '
+ '(lvm, argument) setter pairs, histories on one reused Packet and buffer. CSPTP message / request TLV / response TLV: the same sweeps per field, buffers of the '
+ 'declared length +-1 and longer filled with non-zero bytes, decode into structs holding other values, ill-formed values (ServerStateDS without the flag), '
+ 'histories encode/decode/replace-buffer. NTS: packets with 32..72-byte identifiers (aligned and not), 0..8 cookies of 0..140 bytes, 0..8 placeholders, '
+ 'encrypted cookie plaintexts, fresh and stale 1024-byte caller buffers, sizes at 1020/1024/1028 bytes, oversized packets; decoder fed mutated/truncated/lying '
+ 'encodings one after the other into one Packet. Server cookies: all 16-bit ids, key lengths 0..257, mutated TLVs, encrypt-decrypt. NTS-KE: record lists '
+ '(server-shaped and arbitrary canonical records, Error/Warning, no End, two messages on one connection, trailing bytes, 32768..65535-byte and >65535-byte bodies) '
+ 'and mutated byte streams, each read whole, one byte at a time, half reads, data-with-EOF, and through random chunk schedules below default and 16..64-byte bufio buffers. '
+ 'Non-trivial: a case that exercises a full encode-decode, decode-re-encode or multi-segmentation comparison on a value inside the wire ranges (tag nt); '
+ 'distinct = distinct (kind, input)'),
+    assumptions=['field values inside the ranges of their Go types; fixed byte arrays ([6]uint8 seconds, [3]uint8 organisation ids) read as one big-endian number',
+ 'CSPTP response TLV: ServerStateDS zero unless the flag bit is set (otherwise it is not on the wire); request TLV padding bytes are not data',
+ 'NTS: unique identifier >= 32 bytes, packet within nts.MaxPacketLen (1024); nonce (16 bytes from rand.Read) and ciphertext (AEAD Seal, >= 16 bytes) are arbitrary inputs of the encoder model; '
+ 'a CookiePlaceholder decodes to its header only, a value to itself zero-padded to a multiple of 4',
+ 'server cookies: byte strings shorter than 2^16; NTS-KE: canonical record bodies (NextProto/Port/one-algorithm Algorithm 2 bytes, Cookie/Server bodies < 2^16 bytes)',
+ 'the reader below ReadData (bufio.Reader over TLS/QUIC) answers every Read of m > 0 bytes with a non-empty prefix (<= m bytes) of what is left, or EOF at the end'],
+    trusted=['modelled, not verified: encoding/binary.Read/Write, io.ReadFull, bufio.Reader (as the reader oracle above), bytes.Buffer',
+ 'the AEAD (miscreant AES-CMAC-SIV) is outside the model: the ciphertext is read off the observed packet; that it authenticates is observed through nts.ProcessRequest',
+ 'crypto/rand.Reader is replaced by a scripted tape in the harness process so that the nonce is known'],
+    technique=('Coq proofs over executable Gallina models: a generic big-endian field-layout library (decode(encode)=id, encode(decode)=bytes) instantiated for the NTP header and the '
+ 'three CSPTP layouts; buffer-writer refinement (sequence of PutUint16/copy = concatenation of fields) and a field-by-field decoder induction for NTS; TLV loop '
+ 'proofs for cookies; for NTS-KE a simulation proof between ReadData over any schedule of partial reads and ReadData over the whole stream (induction over io.ReadFull '
+ 'and over the record loop); finite sweeps by vm_compute for the LVM setters; models tied to the code by differential execution of the extracted models against '
+ 'the exported Go functions'),
+    level_text=('Machine-checked theorems for all field values in wire range, all buffers, all byte strings and all segmentations of the NTS-KE stream (no sampling); fuel of every modelled '
+ 'loop proved sufficient. The models are tied to the Go code by running both on swept / boundary-dense / adversarial inputs and multi-step histories every run, and the '
+ "property oracle (round trip, kind preservation, 4-byte alignment, declared lengths, segmentation independence) is evaluated on the implementation's own outputs"),
+    level_note=('Trusted: Coq kernel, the hand-written models (validated by the correspondence run), extraction with ExtrOcamlBasic, the harness. AEAD and standard-library readers by contract. '
+ 'No axioms (every theorem Closed under the global context).'),
+    explanation=('EncodePacket of net/nts silently truncates (copy) instead of failing when a packet exceeds 1024 bytes by less than a field; outside the property (callers cap the cookie count) '
+ 'and reproduced by the model. ReadData ignores the announced body length of NextProto/Algorithm/Port/Error records and reads 2 bytes: non-canonical bodies desynchronise the stream (model agrees).'),
+    timeout_quick=900,
     timeout_thorough=3000,
 )
